@@ -515,6 +515,28 @@ void ProtoRun::do_op(const Op &op) {
             hand_to_receiver(d, u.b, u.tampered, u.kind, u.is_mod);
         }
         obs.hs_done = w.cli->is_complete() && w.srv->is_complete();
+    } else if (op.k == "wbegin") {
+        // first half of a split write on a live, connected session
+        MxEndpoint &e = w.ep(dir);
+        if (e.alive() && e.is_complete() && !obs.death[dir == DIR_C2S ? 0 : 1].dead && !e.app_closed) {
+            size_t len = (size_t) op.b; if (len == 0) { len = 1; } if (pc.dtls() && len > 900) { len = 900; }
+            w.collect(DIR_C2S); w.collect(DIR_S2C);
+            if (e.write_begin(len) > 0) { obs.counters["app.split_write_begin"]++; }
+        }
+    } else if (op.k == "sendq") {
+        // the application writes but the transport has not taken the bytes yet: output stays pending inside the session
+        MxEndpoint &e = w.ep(dir);
+        if (e.alive() && e.is_complete() && !obs.death[dir == DIR_C2S ? 0 : 1].dead) {
+            size_t len = (size_t) op.b; if (len == 0) { len = 1; } if (pc.dtls() && len > 900) { len = 900; }
+            Bytes pl = tagged_payload(dir, (int) (obs.sent[dir].size() + (size_t) encode_attempts++), len);
+            int rc = e.app_send(pl.data(), pl.size(), op.c & 1);
+            if (rc >= 0) { obs.sent[dir].push_back(pl); obs.counters["app.write_left_pending"]++; }
+            after_event();
+        }
+    } else if (op.k == "deliverq") {
+        // hand the next queued unit of a direction to its receiver WITHOUT first draining anybody's pending output
+        if (!g_q[dir].empty()) { Unit u = g_q[dir].front(); g_q[dir].pop_front(); hand_to_receiver(dir, u.b, u.tampered, u.kind, u.is_mod); }
+        obs.hs_done = w.cli->is_complete() && w.srv->is_complete();
     } else if (op.k == "pump") {
         deliver_all();
         obs.hs_done = w.cli->is_complete() && w.srv->is_complete();
@@ -535,7 +557,15 @@ void ProtoRun::do_op(const Op &op) {
         bool early_client = dir == DIR_C2S && pc.version == v_tls_1_3 && !complete_before && matrixSslGetMaxEarlyData(e.ssl) > 0;
         bool early_server = dir == DIR_S2C && pc.version == v_tls_1_3 && !complete_before && pc.max_early_data > 0 && plan.get("resume") != 0 && plan.get("early1", plan.get("early")) > 0 &&
                             (matrixSslGetEarlyDataStatus(e.ssl) == MATRIXSSL_EARLY_DATA_ACCEPTED || e.hs_state() == 27 /* SSL_HS_TLS_1_3_WAIT_EOED: early data accepted, its end awaited */);
-        int rc = e.app_send(pl.data(), pl.size(), op.c & 1);
+        int rc;
+        if ((op.c & 4) && e.wb_ptr_ && complete_before) {
+            // second half of a split write: matrixSslGetWritebuf was called earlier (op "wbegin"), other events happened, matrixSslEncodeWritebuf now
+            if (pl.size() > (size_t) e.wb_room_) { pl.resize((size_t) e.wb_room_); }
+            rc = e.write_commit(pl.data(), pl.size()); obs.counters["app.split_write_commit"]++;
+        } else if ((op.c & 2) && (was_dead || e.app_closed)) {
+            // a dead session's application tries matrixSslEncodeToUserBuf (ciphertext into its own buffer: nothing reaches the wire here)
+            rc = e.app_send_userbuf(pl.data(), pl.size(), nullptr); if (rc == 0) { rc = -1; } obs.counters["app.userbuf_write_after_death"]++;
+        } else { rc = e.app_send(pl.data(), pl.size(), op.c & 1); }
         if (rc >= 0) {
             // fragmented by the library into <=16384-byte records; the stream is what matters
             if (early_client) { obs.early_sent.push_back(pl); obs.early_write_ok++; obs.counters["early.client_write_ok"]++; }
